@@ -504,6 +504,14 @@ func genC13(g *genState) {
 // genC14: retry / expiry schedules under ticks of every length.
 func genC14(g *genState) {
 	r := g.r
+	if r.P(0.1) {
+		// an operator injects a governance VAA before the node has fetched its first guardian set
+		g.add("inj", govOf(encodeMsg(13, 0, 0, 2, 0, 0)), 0, 0, 0, "")
+		g.add("loop", 0, 0, 0, 0, "")
+		if r.P(0.5) {
+			g.add("tick", int64(30*time.Second), int64(1+r.Intn(25)), 0, 0, "")
+		}
+	}
 	g.pushSet(g.newSet(2+r.Intn(8), r.P(0.85)))
 	set := g.curSet()
 	q := ref.Quorum(len(set))
